@@ -291,16 +291,20 @@ def fuzz_phase(prop, seed):
             env["ASAN_OPTIONS"] = "detect_odr_violation=0:detect_leaks=0"
             cmd = [exe, corpus, f"-runs={runs}", f"-max_len={max_len}", "-len_control=0", f"-seed={(seed * 1000 + i * 7 + 1) % (2**31)}", f"-artifact_prefix={art}",
                    "-print_final_stats=1", "-detect_leaks=0", "-rss_limit_mb=6144", "-timeout=120"]
-            ps.append((i, art, subprocess.Popen(cmd, cwd=work, env=env, stdout=subprocess.PIPE, stderr=subprocess.STDOUT, text=True)))
+            # output goes to a file: with pipes the processes block on a full pipe until their turn to be read
+            logf = open(os.path.join(work, f"log{i}.txt"), "w")
+            ps.append((i, art, subprocess.Popen(cmd, cwd=work, env=env, stdout=logf, stderr=subprocess.STDOUT, text=True), logf))
         st = {"target": target, "features": features or "default", "processes": procs, "requested_runs_per_process": runs, "executed_units": 0, "max_cov": 0}
-        for i, art, p in ps:
+        for i, art, p, logf in ps:
             try:
-                out, _ = p.communicate(timeout=6 * 3600)
+                p.wait(timeout=6 * 3600)
             except subprocess.TimeoutExpired:
                 p.kill()
-                out, _ = p.communicate()
+                p.wait()
                 st["timed_out"] = True
                 infra = True
+            logf.close()
+            out = open(logf.name, errors="replace").read()
             for line in out.splitlines():
                 if line.startswith("stat::number_of_executed_units:"):
                     st["executed_units"] += int(line.split(":")[-1])
